@@ -6,6 +6,13 @@ def R(pkg, run, quick, thorough, **kw):
     return d
 
 CHECKS = {
+    "C16": {
+        "runs": [
+            R("./header", "^TestC16Apply", {"checks": 20000, "timeout": 300}, {"checks": 200000, "shards": 8, "timeout": 1200}),
+            R("./header", "^TestC16(Parse|Grammar)", {"checks": 20000, "timeout": 300}, {"checks": 200000, "shards": 4, "timeout": 1200}),
+        ],
+        "fuzz": [{"pkg": "./header", "target": "FuzzC16Parse", "time": "60s"}],
+    },
     "C17": {
         "runs": [
             R("./ruleset", "^TestC17", {"checks": 20000, "timeout": 300}, {"checks": 150000, "shards": 16, "timeout": 1200}),
@@ -17,6 +24,11 @@ CHECKS = {
 LEVELS = {}  # default: exploration
 
 RULES = {
+    "C16": "three rapid properties: (Apply) a list of 1-6 grammar rules (all five actions; names from a pool of colliding spellings such as X-Foo/x-foo/X-FOO/X-Foo-Bar/X-) "
+           "applied to a header map built from 0-7 wire fields, compared after every rule with a reference interpreter over a case-insensitive multimap with a spelling attribute; "
+           "(Parse) grammar strings, grammar strings with CR/LF/NUL/colon/semicolon/star/percent inserted at generated offsets, regex-shaped and arbitrary strings: accepted => token name, no CR/LF in value, action fixed by the syntax, String() re-parses to the same rule; "
+           "(Grammar) every generated rule of the documented grammar is accepted with the intended meaning. Non-trivial (Apply) = two rules on the same name, a prefix rule matching >=2 fields, or a % rule; "
+           "(Parse) = accepted string. Distinct = distinct (rule list, wire list) / distinct strings.",
     "C17": "rapid draws a list of 1-6 grammar-generated Go regexps (literals, classes, groups, alternation, quantifiers, anchors, "
            "leading / mid-expression / scoped inline flags) marked include/exclude, 2-8 candidate hosts derived from per-rule witness "
            "strings by case flips / prefixes / suffixes / truncation, and a permutation of the list. Non-trivial = at least 2 rules "
@@ -24,6 +36,9 @@ RULES = {
 }
 
 ASSUMPTIONS = {
+    "C16": ["header maps handed to the rules have canonical keys (what net/http's reader produces); non-canonical keys arise only through % rules",
+            "when a name is spread over several differently spelt keys (only after % followed by add) value order across keys is not asserted, only the multiset",
+            "dispatch by message kind (request / CONNECT / response) is exercised through the full proxy in C01/C02 lab runs, not here"],
     "C17": ["Go's regexp package evaluates a single rule correctly (it is the per-rule reference)",
             "rules are non-empty valid Go regexps that do not themselves start with '-' (the '-' prefix is the exclude marker)"],
 }
@@ -32,6 +47,11 @@ ASSUMPTIONS = {
 # MANIFEST texts
 
 META = {
+    "C16": {
+        "technique": "property-based testing (rapid): model-based check of rule lists against a reference interpreter; parser acceptance/round-trip properties over grammar, mutated and arbitrary strings; native fuzzing of the parser in the thorough tier",
+        "text": "Reference-model comparison after every rule of generated rule lists (60k cases quick, millions thorough), plus parser legality and print/parse round trip over hostile strings. Decides the rule semantics and parser clauses of the property at function level.",
+        "note": "Function-level (ParseHeader/Apply/String are the same code the flags use); name alphabet is the parser's own [A-Za-z0-9-]; the reference interpreter is 40 lines and is the trusted base.",
+    },
     "C17": {
         "technique": "property-based testing (rapid): grammar-generated regexp lists x derived hosts, differential oracle against per-rule regexp evaluation; metamorphic permutation + inverse relations; native fuzz via rapid.MakeFuzz in thorough tier",
         "text": "Generated search over rule lists and hosts with a reference model (exists include match and no exclude match, each rule compiled on its own). 20k lists quick / 2.4M thorough plus a coverage-guided campaign. Finds any cross-rule interaction the grammar can express (flags, anchors, alternation, ordering); does not prove absence.",
